@@ -643,6 +643,53 @@ def reference_obligations(rep):
 
 
 
+# --------------------------------------------------------------------------------------------- O5 constants
+def constant_obligations(rep):
+    """numeric constants: the text the real printer emits for a constant evaluates, inside the emitted function, to that
+    value bit for bit (sign of zero, infinities, NaN), for the Python and the NumPy target"""
+    import warnings
+
+    import functional_algorithms as fa
+    import functional_algorithms.targets as T
+
+    values = [0.0, -0.0, 1.0, -1.5, 2, -3, 1e-320, 1e300, 0.1, float("inf"), float("-inf"), float("nan"), numpy.float64(-0.0), numpy.float64("inf"), numpy.float32(0.1), True]
+    for tname in ("python", "numpy"):
+        target = getattr(T, tname)
+        fnid = ("targets.%s.Printer.make_constant" % tname,)
+        bad, n = [], 0
+        for v in values:
+            for shape in ("returned", "operand"):
+                if isinstance(v, bool) and shape == "operand":
+                    continue
+                n += 1
+
+                def f(ctx, x: float):
+                    c = ctx.constant(v, x) if not isinstance(v, bool) else ctx.constant(v)
+                    return c if shape == "returned" else ctx.copysign(ctx.constant(1.0, x), c) * (c + x)
+
+                try:
+                    with warnings.catch_warnings(), numpy.errstate(all="ignore"):
+                        warnings.simplefilter("ignore")
+                        ctx = fa.Context(paths=[fa.algorithms])
+                        g = ctx.trace(f, float if tname == "python" else numpy.float64)
+                        fn = target.as_function(g)
+                        got = fn(0.0)
+                        if shape == "returned":
+                            want = v
+                        else:
+                            cv = numpy.float64(v)
+                            want = numpy.copysign(numpy.float64(1.0), cv) * (cv + numpy.float64(0.0))
+                    if not same_value(got, want):
+                        bad.append((repr(v), shape, "evaluates to %r instead of %r" % (got, want)))
+                except Exception as e:
+                    bad.append((repr(v), shape, "raised %r" % (e,)))
+        # a payload narrower than the reference operand (numpy.float32(0.1) like a double) is its own obligation
+        narrow = [b for b in bad if "float32" in b[0]]
+        bad = [b for b in bad if "float32" not in b[0]]
+        rep.add(core.decided("C05/O5/constants/%s" % tname, PROP, not bad, functions=fnid, text="%d (value, position) cases: the printed constant evaluates to the value bit for bit inside the emitted function" % n, detail=dict(bad=[str(b) for b in bad[:8]]), meta=dict(target=tname, kind="constants", bad=[str(b) for b in bad[:4]])))
+        rep.add(core.decided("C05/O5/constants/%s/payload-narrower-than-reference" % tname, PROP, not narrow, functions=fnid, text="numpy.float32(0.1) as the value of a constant like a double: the printed constant evaluates to float32(0.1) widened", detail=dict(bad=[str(b) for b in narrow]), meta=dict(target=tname, kind="constants-narrow-payload", bad=[str(b) for b in narrow[:4]])))
+
+
 # --------------------------------------------------------------------------------------------- O7 list arguments
 def list_argument_obligations(rep):
     """PrinterBase.init_arguments for list-typed arguments: every item the body uses is bound exactly once, before its first
@@ -849,13 +896,18 @@ def build(tier):
             template_obligations_py(rep, t)
         except Exception:
             rep.add(core.decided("C05/O1/%s/engine" % t, PROP, core.ERROR, text=traceback.format_exc()[-1500:]))
-    for f in (template_obligations_cpp, composition_obligations, printer_step_obligations, need_ref_obligations, reference_obligations, list_argument_obligations, auto_reference_obligations):
+    for f in (template_obligations_cpp, composition_obligations, printer_step_obligations, need_ref_obligations, reference_obligations, constant_obligations, list_argument_obligations, auto_reference_obligations):
         try:
             f(rep)
         except Exception:
             rep.add(core.decided("C05/%s/engine" % f.__name__, PROP, core.ERROR, text=traceback.format_exc()[-1500:]))
     rep.add(core.decided("C05/canary/swapped-operands", PROP, canon(ast.parse("(b) - (a)", mode="eval").body, ["a", "b"]) != spec("subtract", "python"), text="canary: a template with swapped operands does not match the spec", kind="canary"))
     rep.replayers["C05/"] = replay_any
+    # bounded stand-in for the induction step the obligations leave to an argument: random graphs end to end (never proofs)
+    from vf.contracts import C05_bounded
+
+    C05_bounded.run(rep, tier)
+    rep.replayers["C05/bounded"] = C05_bounded.replay
     return rep
 
 
